@@ -995,6 +995,8 @@ func (s *Server) chatterBody(kind string, salt uint64) []byte {
 	switch kind {
 	case "plain-new_session_created", "enc-new_session_created":
 		return nsc
+	case "enc-pong":
+		return cat(U32(CrcPong), U64(0x5e0b700a00000004), U64(77))
 	case "plain-bad_server_salt":
 		return cat(U32(0xedab447b), U64(0x5e0b700a00000004), U32(2), U32(48), U64(salt))
 	case "plain-rpc_result":
@@ -1024,12 +1026,22 @@ func (s *Server) SendChatter(kind string, salt uint64) error {
 		}
 		s.logf("send-post", pkt, 0, kind)
 		s.sendFrame(c, pkt)
-	case kind == "enc-new_session_created":
+	case kind == "enc-new_session_created" || kind == "enc-pong":
+		if kind == "enc-pong" && key != nil && sid == nil {
+			sid = U64(0x5e551d0000000001) // before the client's first encrypted message its session id is not known (nor checked by it)
+		}
 		if key == nil || sid == nil {
 			return errors.New("hsserver: no key / session for an encrypted notification")
 		}
+		if cur == nil {
+			cur = U64(0)
+		}
 		body := s.chatterBody(kind, salt)
-		plain := cat(cur, sid, U64(uint64(id)), U32(1), U32(uint32(len(body))), body)
+		seq := uint32(1)
+		if kind == "enc-pong" {
+			seq = 0 // not content-related: nothing to acknowledge, nothing changes
+		}
+		plain := cat(cur, sid, U64(uint64(id)), U32(seq), U32(uint32(len(body))), body)
 		msgKey := sha(plain)[4:20]
 		for len(plain)%16 != 0 {
 			plain = append(plain, 0x3c)
